@@ -32,6 +32,18 @@ Theorem C37_failed_stores_nothing_but_reports :
       last_batch_shape (st_time sp) (report_vals c 0 total added sadded bytes) bs.
 Proof. exact failed_step_shape. Qed.
 
+(* When scrapeLoop.append accepts a body, after any history in scope — a condition on the body
+   alone: no unparsable tail, no line whose relabeled series is rejected, and sample_limit = 0 or
+   the number of samples the reference semantics stores is within sample_limit. *)
+Theorem C37_accepts_iff :
+  forall c mut rep h sp es bad len,
+    Forall (step_ok c) h -> step_ok c sp -> st_out sp = OBody es bad len -> len <> 0 ->
+    (~ step_failed c mut (state_after c mut rep h) sp <-> body_accepts c mut (st_time sp) es bad).
+Proof.
+  intros c mut rep h sp es bad len FH. intros.
+  eapply accept_iff; eauto. now apply reachable_ginv.
+Qed.
+
 (* An accepted body, after any history in scope: one committed appender holding
    (1) exactly the samples of the reference semantics, in body order, with the relabeled label
        set, the explicit timestamp or the scrape time, and the exposed value;
